@@ -1,5 +1,6 @@
 """C15 - malformed or oversized requests are refused with 4xx and change nothing."""
 from rules import http as H
+from rules import shared as S
 LEVEL = "other"
 TRUSTED = ["TB-rustc", "TB-actix (typed extractors refuse malformed ids with 4xx; PayloadError is a 4xx ResponseError; unknown routes)"]
 EXPLANATION = ("every pre-storage refusal is a 4xx constructor and precedes any storage access; bounded body accumulation (strict > MAX checked "
@@ -12,3 +13,6 @@ def run(rep, W, ctx):
     H.c15_typed(rep, W)
     H.c15_nopanic(rep, W)
     H.route_params_plain(rep, W)
+    # a malformed X-Client-Id must be REFUSED, not replaced: the id the handlers act on is the parsed header value and nothing
+    # else (a header helper that turns a parse failure into a default id accepts a malformed request)
+    S.s_clientid(rep, W)
